@@ -47,6 +47,9 @@ CHECKS = {
  "C15": dict(level="exploration", tech="convergence oracle over exhaustively enumerated small-scope two-replica histories (edits x undo/redo x every sync placement, incl. macro events 'everybody syncs and collects' and 'one replica collects first') and random larger ones, on real Documents exchanging changes through an in-process change log that mirrors the server (wire codec, push order, minimum version vector => every pull garbage-collects); plus a fresh replica fed by the log alone",
    text="2 replicas, base document per family (text/array/tree/object+counter+nested array), ALL event sequences up to length 5 (thorough 6) over {edit_k by A or B from a reduced state-dependent C14 alphabet that always contains a deletion, undo/redo by A or B, sync A, sync B, round, lead A, lead B} with <=3 edits per replica and <=2 (3) undo/redo calls, in four configurations (collection on/off x histories cleared or not), every prefix evaluated; random 2..3-replica histories over the full generator alphabet. Oracle: no Update/Undo/Redo/sync errors or panics; after closing rounds and a final collection all replicas marshal byte-identically; a fresh replica built from the log shows the same canonical content.",
    note="in-process log, not the RPC server; failures whose precondition is one of four recorded findings (restore racing a concurrent edit, same identity restored twice, undo referring to an acknowledged tombstone, array insertion next to a tombstone under collection) are identified from the log / the author's state and reported as KNOWN-FINDING, everything else is a violation."),
+ "C16": dict(level="exploration", tech="parallel storm on the real server under the Go race detector with seeded yield injection at storage calls and lock boundaries; monitors: no-progress watchdog with goroutine dump (deadlock), race-detector log scan, per-goroutine lock-order / re-entrancy recorder (verif-tagged hook), request-error classifier, C04's offline log oracle and convergence of the surviving replicas",
+   text="5..12 goroutine clients x 1..3 documents run seeded mixes of Attach, PushPull (edits, empty, push-only), WatchDocument streams opened and cancelled, Detach + re-attach and Deactivation with documents attached (=> ClusterService.DetachDocument), while background goroutines run CompactDocument (normal/forced), the housekeeping compaction pass and BuildInternalDocForServerSeq, with the server's own snapshotting (threshold 3..10). Oracle: requests keep completing (30 s without any completion while some are outstanding = deadlock, parked goroutines listed), race detector silent, locks acquired in the order doc -> doc-pull -> doc-attachment -> doc-push and never re-entered, only protocol-allowed errors, C04 log oracle per uncompacted document, replicas whose closing syncs succeed converge.",
+   note="memdb, single node; schedules are not replayable exactly (the replay command re-runs the same seeded workload); documents that were compacted are checked for convergence only."),
  "C18": dict(level="exploration", tech="round-trip monitor on documents reached through generated histories and on generated YSON literals: export -> text -> parse -> text (stable), SetYSON into a new document -> export (equal), canonical content of the rebuilt document through a view that bypasses the exporter, and the rebuilt document's changes through the wire codec into a third document",
    text="Subject+peer histories over the full generator alphabet with scar steps (concurrent edits, GC, snapshot round trip), styles and style removal, non-BMP characters, nested containers, counters, plus values real documents hold (punctuation, the exporter's own keywords, {\"type\":\"paragraph\"} objects, control characters, 64-bit extremes); at sampled points the compaction/revision round trip is performed. Literal family: random YSON values of every type and nesting are marshalled, parsed, re-marshalled, set into a document and exported again.",
    note="in-process; packs.Compact's rebuild-compare on the live server is exercised on every compaction of C10; dedup counters that already counted are compared up to the rebuilt document only (F-DEDUP-HLL-OPS, pinned witness)."),
